@@ -52,7 +52,8 @@ def generate(prop, rng):
     # keys of dir objects must not be inside / above explicit files or each other
     ops = []
     kinds = [(3, "get"), (2, "contains"), (3, "iteritems"), (3, "ls"), (2, "info"), (1, "diff"),
-             (2, "fs_ls"), (1, "fs_info"), (1, "fs_find"), (2, "fs_open"), (3, "view"), (1, "load")]
+             (2, "fs_ls"), (1, "fs_info"), (1, "fs_find"), (2, "fs_open"), (3, "view"), (1, "load"), (1, "reopen"),
+             (1, "evict_restore")]
     for _ in range(rng.randint(4, 20)):
         ops.append({"op": gen.weighted(rng, kinds), "r": rng.random(), "r2": rng.random(),
                     "shallow": rng.random() < 0.3, "detail": rng.random() < 0.5, "absent": rng.random() < 0.15})
@@ -218,6 +219,12 @@ def execute(sc, ctx):
     def is_loaded():
         return all(bool(L._trie.get(d) and L._trie.get(d).loaded) for d in dobjs)
 
+    def is_loaded_safe():
+        try:
+            return is_loaded()
+        except Exception:  # noqa: BLE001
+            return False
+
     def run(idx, op, tag):
         """Returns a normalised answer for `op` on `idx`."""
         k = op["op"]
@@ -325,6 +332,33 @@ def execute(sc, ctx):
 
     for n, op in enumerate(sc["ops"]):
         if not filekeys and op["op"] == "fs_open":
+            continue
+        if op["op"] == "reopen":
+            # a later process opens the same SQLite-backed index again
+            if sc["cfg"]["sqlite"]:
+                L.commit()
+                L.close()
+                L = DataIndex.open(w.p("idx", "L.db"))
+                L.storage_map.add_cache(ObjectStorage((), odb))
+                ctx.probe("sqlite_reopened")
+            continue
+        if op["op"] == "evict_restore":
+            # the directory object is not in storage yet when first accessed (error
+            # swallowed by the caller's onerror), and arrives afterwards (fetch)
+            dk = pick(sorted(dobjs), op["r"])
+            ent = L._trie.get(dk)
+            if ent is not None and not ent.loaded:
+                doid_, dbytes_, _ = dobjs[dk]
+                w.raw_rm("cache", "local", doid_)
+                prev_onerror = L.onerror
+                L.onerror = lambda *a: None
+                try:
+                    list(L.ls(dk, detail=False))
+                except Exception:  # noqa: BLE001
+                    pass
+                L.onerror = prev_onerror
+                w.raw_add("cache", "local", doid_, dbytes_)
+                ctx.probe("dir_object_arrived_after_first_access")
             continue
         pre = is_loaded()
         try:
